@@ -311,6 +311,8 @@ class Fn:
         if k == 'InitListExpr':
             if len(n.get('inner', [])) == 1:
                 return self.e(n['inner'][0])
+            if self.ctx.cfg.get('opaque_types') and len(n.get('inner', [])) in (2, 3):   # C06: aggregate results such as insert_return_type{ position, inserted, node }
+                return '(' + ', '.join(self.e(x) for x in n['inner']) + ')'
             raise TranslationError('InitListExpr with %d elements' % len(n.get('inner', [])))
         if k == 'IntegerLiteral':
             return '(' + n['value'] + ')'
@@ -573,7 +575,8 @@ class Fn:
         if isinstance(mob_, tuple):     # C12: any accessor of an opaque class-typed local (memory.GetPointer(), memory.Extract()) is the local's symbol
             if nm in self.ctx.cfg.get('opaque_objects', {}).get(mob_[1], []):
                 return mob_[1]
-            raise TranslationError('call %s.%s on an opaque object is not listed in "opaque_objects"' % (mob_[1], nm))
+            if nm not in self.ctx.cfg.get('primitives', {}):   # C19: an accessor that IS a configured primitive (object_prims) is applied to the symbol below
+                raise TranslationError('call %s.%s on an opaque object is not listed in "opaque_objects"' % (mob_[1], nm))
         if nm in self.ctx.accessors:
             fld, idx = self.accessor_target(nm, args)
             return f'({fld} {idx})'
@@ -1015,6 +1018,7 @@ class Fn:
                 am_ = None
             if am_ is not None:
                 acc.add(am_[1])
+                if self.ctx.cfg['atomic_mem'].get('order_field'): acc.add(self.ctx.cfg['atomic_mem']['order_field'])
                 if am_[0].startswith('compare_exchange'):
                     acc.add(self.lhs_name(am_[3][0]))
         if k == 'CXXOperatorCallExpr' and self.ctx.cfg.get('effect_assign', {}).get(self.name) and len(n.get('inner', [])) == 3:   # C20: effect_assign writes its field
@@ -1402,6 +1406,20 @@ class Fn:
                 return self.stmts(lst[1:], k, jc)
             self.fail_k = handler_k_
             return self.stmts([s['inner'][0]], after_try_, jc)
+        if kind == 'CXXTryStmt' and self.ctx.cfg.get('try_catch_swallow'):
+            # C10: `try { B } catch (...) { H }` whose handler does NOT rethrow: "try_catch_swallow": "<Gallina bool>" says whether a user
+            # functor called inside B throws; then the handler's statements run instead of (the rest of) B
+            if len(s['inner']) != 2 or s['inner'][1].get('kind') != 'CXXCatchStmt':
+                raise TranslationError('try_catch_swallow: exactly one handler expected')
+            hb_ = [x for x in s['inner'][1].get('inner', []) if isinstance(x, dict) and x.get('kind') == 'CompoundStmt']
+            if len(hb_) != 1:
+                raise TranslationError('try_catch_swallow: catch (...) { } expected')
+            if 'CXXThrowExpr' in json.dumps(hb_[0]):
+                raise TranslationError('try_catch_swallow: the handler rethrows')
+            tv_ = self.ctx.cfg['try_catch_swallow']
+            a_ = self.stmts(list(hb_[0].get('inner', [])) + lst[1:], k, jc)
+            b_ = self.stmts([s['inner'][0]] + lst[1:], k, jc)
+            return f'if {tv_} then (\n{a_})\nelse (\n{b_})'
         if kind == 'CXXTryStmt' and self.ctx.cfg.get('try_as_body'):   # C16: exceptions are not modelled: the try block alone
             return self.stmts([s['inner'][0]] + lst[1:], k, jc)
         if kind == 'DoStmt':
@@ -1518,11 +1536,19 @@ class Fn:
                 # memory array: x := mem[addr(obj)]; mem[addr(obj)] := v   (sequential reading of the atomic read-modify-write)
                 _, arr_, addr_, args_ = am_
                 self.note_write(arr_); self.env[nm] = ct
-                return f'let {nm} := ({arr_} {addr_}) in\nlet {arr_} := upd {arr_} {addr_} {self.e(args_[0])} in\n{go(i+1)}'
+                return f'let {nm} := ({arr_} {addr_}) in\nlet {arr_} := upd {arr_} {addr_} {self.e(args_[0])} in\n{self.atomic_order_let()}{go(i+1)}'
             val = self.e(init[0])
             self.env[nm] = ct
             return f'let {nm} := {val} in\n{go(i+1)}'
         return go(0)
+
+    def atomic_order_let(self):
+        of_ = self.ctx.cfg.get('atomic_mem', {}).get('order_field')
+        if not of_:
+            return ''
+        if of_ not in self.env: raise TranslationError('order_field %s is not a configured field' % of_)
+        self.note_write(of_)
+        return f'let {of_} := (Z.min {of_} ({self.atomic_order_})) in\n'
 
     def atomic_mem_call(self, n):
         """C19: (method, array, address text, argument nodes) when n is `obj.exchange(..)` / `obj.compare_exchange_weak|strong(..)` on an
@@ -1539,7 +1565,18 @@ class Fn:
         if c.get('kind') != 'MemberExpr' or c.get('name') not in ('exchange', 'compare_exchange_weak', 'compare_exchange_strong'):
             return None
         args = [a for a in n['inner'][1:] if a.get('kind') != 'CXXDefaultArgExpr']
-        if len(args) != (1 if c['name'] == 'exchange' else 2):
+        nargs_ = 1 if c['name'] == 'exchange' else 2
+        self.atomic_order_ = 5          # C19: memory_order_seq_cst (the default argument)
+        if len(args) > nargs_ and cfg_.get('order_field'):
+            # C19 ("order_field": pseudo scalar field): explicit std::memory_order arguments are translated to their enumerator value
+            # (relaxed 0 .. seq_cst 5) and the field records the MINIMUM order used, so that "every atomic op is seq_cst" is a lemma
+            vals_ = []
+            for a in args[nargs_:]:
+                m_ = re.search(r'"name": "memory_order_(relaxed|consume|acquire|release|acq_rel|seq_cst)"', json.dumps(a))
+                if not m_: raise TranslationError('atomic %s: memory order argument is not an enumerator' % c['name'])
+                vals_.append(['relaxed', 'consume', 'acquire', 'release', 'acq_rel', 'seq_cst'].index(m_.group(1)))
+            self.atomic_order_ = min(vals_); args = args[:nargs_]
+        if len(args) != nargs_:
             raise TranslationError('atomic %s with an explicit memory order is not modelled' % c['name'])
         obj = skip_wrappers(c['inner'][0])
         while obj.get('kind') == 'ImplicitCastExpr':
@@ -2008,7 +2045,7 @@ class Fn:
             sp_ = self.ctx.cfg['atomic_mem'].get('spurious')
             okx_ = f'Z.eqb ({arr_} {addr_}) {exp_}' + (f' && negb {sp_}' if sp_ and am_[0].endswith('weak') else '')
             syn_ = dict(s); syn_['inner'] = [{'kind': 'C19CasOk'}] + list(inner[1:])
-            return (f'let cas_ok_ := ({okx_}) in\nlet {exp_} := (if cas_ok_ then {exp_} else ({arr_} {addr_})) in\n'
+            return (self.atomic_order_let() + f'let cas_ok_ := ({okx_}) in\nlet {exp_} := (if cas_ok_ then {exp_} else ({arr_} {addr_})) in\n'
                     f'let {arr_} := (if cas_ok_ then upd {arr_} {addr_} {des_} else {arr_}) in\n' + self.if_stmt(syn_, rest, jc))
         c = 'cas_ok_' if cnd.get('kind') == 'C19CasOk' else self.e(cnd)
         if not self.has_jump(th) and not (el and self.has_jump(el)):
@@ -2126,6 +2163,18 @@ class Fn:
         self.nonsimple = True
         if s['kind'] == 'WhileStmt':
             cond, body = s['inner'][0], s['inner'][1]; init = None; inc = None
+            if self.ctx.cfg.get('atomic_mem'):   # C19: `while (!a.compare_exchange_weak(e, d)) B`  ==  `while (true) { if (a.compare_exchange_weak(e, d)) break; B }`
+                c0_ = skip_wrappers(cond)
+                while c0_.get('kind') == 'ImplicitCastExpr':
+                    c0_ = skip_wrappers(c0_['inner'][0])
+                if c0_.get('kind') == 'UnaryOperator' and c0_.get('opcode') == '!':
+                    try:
+                        am_ = self.atomic_mem_call(c0_['inner'][0])
+                    except TranslationError:
+                        am_ = None
+                    if am_ is not None and am_[0].startswith('compare_exchange'):
+                        cond = {'kind': 'CXXBoolLiteralExpr', 'value': True, 'type': {'qualType': 'bool'}}
+                        body = {'kind': 'CompoundStmt', 'inner': [{'kind': 'IfStmt', 'inner': [c0_['inner'][0], {'kind': 'BreakStmt'}]}, body]}
         else:
             init, _cv, cond, inc, body = s['inner']
             if _cv and _cv != {}:
@@ -2444,9 +2493,9 @@ def method_decls(spec, name):
             for y in m.get('inner', []):
                 if y.get('kind') == 'FunctionDecl' and y.get('name') == name and any(z.get('kind') == 'CompoundStmt' for z in y.get('inner', [])):
                     out.append(y)
-        if m.get('kind') == 'FunctionTemplateDecl' and m.get('name') == name:
+        if m.get('kind') == 'FunctionTemplateDecl' and (m.get('name') == name or (name.startswith('operator ') and (m.get('name') or '').startswith(name + '<'))):   # C20: member template conversion operator
             for y in m.get('inner', []):
-                if y.get('kind') == 'CXXMethodDecl' and any(z.get('kind') == 'CompoundStmt' for z in y.get('inner', [])) \
+                if y.get('kind') in ('CXXMethodDecl', 'CXXConversionDecl') and any(z.get('kind') == 'CompoundStmt' for z in y.get('inner', [])) \
                         and any(z.get('kind') == 'TemplateArgument' for z in y.get('inner', [])):
                     out.append(y)
     return out
